@@ -600,3 +600,29 @@ func (r evalRes) bigOf(w int) *bigInt {
 }
 
 var _ = strings.HasPrefix
+
+func init() {
+	// sort.Slice / sort.SliceStable: insertion sort driven by the real less closure
+	sortSlice := func(x *Exec, c *frame, fn *ssa.Function, a []Value) Value {
+		ifc := a[0].(Iface)
+		s, ok := ifc.v.(Slice)
+		if !ok {
+			panic(&goPanic{msg: "sort.Slice of non-slice", runtime: true})
+		}
+		less := a[1]
+		for i := 1; i < s.len; i++ {
+			for j := i; j > 0; j-- {
+				r := x.callValue(c, less, []Value{mkBV(64, uint64(j)), mkBV(64, uint64(j-1))})
+				if !x.ps.decide(termOf(r), "sort.less") {
+					break
+				}
+				vj, vk := s.get(j), s.get(j-1)
+				s.set(j, vk)
+				s.set(j-1, vj)
+			}
+		}
+		return nil
+	}
+	intrinsics["sort.Slice"] = sortSlice
+	intrinsics["sort.SliceStable"] = sortSlice
+}
